@@ -19,6 +19,7 @@ import (
 	"bufio"
 	"bytes"
 	"encoding/json"
+	"errors"
 	"fmt"
 	"io"
 	"log"
@@ -29,6 +30,7 @@ import (
 	"strconv"
 	"strings"
 	"sync"
+	"sync/atomic"
 	"time"
 
 	hclog "github.com/hashicorp/go-hclog"
@@ -609,6 +611,67 @@ func runStderrCase(c *c10Case) (impl, pred string) {
 	return impl, c10Predicate(c.n, c.in, written, recs)
 }
 
+// failingWriter fails per mode: always | once (the first Write only) | short (reports a short write without error)
+type failingWriter struct {
+	mode string
+	n    int64
+}
+
+func (w *failingWriter) Write(p []byte) (int, error) {
+	k := atomic.AddInt64(&w.n, 1)
+	switch {
+	case w.mode == "always", w.mode == "once" && k == 1:
+		return 0, errors.New("sink failed")
+	case w.mode == "short":
+		return len(p) / 2, nil
+	}
+	return len(p), nil
+}
+
+// runSinkFailCase: 4096 lines (~256 KiB, several pipe buffers) go to the plugin's stderr while the configured Stderr
+// writer fails; the plugin's writes must all complete and every line must still be logged.
+func runSinkFailCase(mode string) (impl, pred string) {
+	sink := newC10Sink()
+	client, fr, st := c10Start(0, sink, &failingWriter{mode: mode})
+	if st != "" {
+		c10Finish(client, fr)
+		return "err " + st, "FAIL:" + st
+	}
+	const lines = 4096
+	var in []byte
+	for i := 0; i < lines; i++ {
+		in = append(in, []byte(fmt.Sprintf("[INFO] line %06d %s\n", i, strings.Repeat("x", 40)))...)
+	}
+	wd := make(chan error, 1)
+	go func() { wd <- writeChunked(fr.stderrW, in, 1000) }()
+	hang := false
+	select {
+	case <-wd:
+	case <-time.After(c10Watchdog):
+		hang = true
+	}
+	fr.exit()
+	if !hang {
+		select {
+		case <-sink.exited:
+		case <-time.After(c10Watchdog):
+			hang = true
+		}
+	}
+	c10Finish(client, fr)
+	sink.mu.Lock()
+	n := len(sink.recs)
+	sink.mu.Unlock()
+	impl = fmt.Sprintf("blocked=%s recs=%d/%d", b01(hang), n, lines)
+	switch {
+	case hang:
+		return impl, "FAIL:stderr-stall-after-sink-error"
+	case n != lines:
+		return impl, "FAIL:stderr-lines-not-logged-after-sink-error"
+	}
+	return impl, "ok"
+}
+
 // ---------------------------------------------------------------- one stdout case
 
 func runStdoutCase(c *c10Case) (impl, pred string) {
@@ -1048,6 +1111,11 @@ func hostC10(o *out, replay string) {
 		}
 		outc[key]++
 		o.emit(results[i].line, results[i].impl, results[i].pred)
+	}
+	// a Stderr writer that fails (full disk, closed file): the host must keep reading the plugin's stderr and logging it
+	for _, mode := range []string{"always", "once", "short"} {
+		impl, pred := runSinkFailCase(mode)
+		o.emit("!C10.sinkfail mode="+mode, impl, pred)
 	}
 	o.note("C10 input classes: %s", fmtCounts(cls))
 	o.note("C10 outcomes: %s", fmtCounts(outc))
